@@ -11,7 +11,7 @@ LEVEL = "exploration"
 MANIFEST = dict(
     engine="E4-shmharness", engine_path="vlib/shmharness.py",
     kind="real shm.dataset.Manager + real SharedMemory segments + controllable Disk + virtual clock; unique contents per key so a read identifies its write",
-    technique="runtime monitoring of recorded client histories against ground truth kept by the harness: every granted read is compared byte-for-byte with what was written under the key (across page-out/page-in cycles), grants before the writer finished are flagged, page-out submissions and segment unlinks are checked against the table of fresh readers, delayed purges are followed to the last reader close, and 'eventually granted' is decided as bounded progress (a satisfiable request is granted within 3 attempts once the store is quiescent)",
+    technique="runtime monitoring of recorded client histories against ground truth kept by the harness: every granted read is compared byte-for-byte with what was written under the key (across page-out/page-in cycles), grants before the writer finished are flagged, page-out submissions and segment unlinks are checked against the table of fresh readers, delayed purges are followed to the last reader close, every finished disk job -- successful or failed, before or after its side effect -- must leave its dataset in a settled status, and 'eventually granted' is decided as bounded progress (a satisfiable request is granted within 3 attempts once the store is quiescent)",
     text="Held = no monitor fired on any history explored; the evidence reports content checks, fresh-reader closes, purges during reads, delayed purges completed, eviction attempts that found nothing evictable and bounded-grant probes.",
     note="Handles older than the staleness window are forfeited (the statement protects only younger ones); after an injected disk failure only safety (no wrong bytes) is demanded for that key; liveness is restated as bounded progress in attempts, not time.",
 )
